@@ -385,7 +385,6 @@ func (n NaturalLanguageValues) MarshalJSON() ([]byte, error) {
 	if l == 1 {
 		v := n[0]
 		if len(v.Value) > 0 {
-			v.Value = unescape(v.Value)
 			stringBytes(&b, v.Value, false)
 			return b.Bytes(), nil
 		}
@@ -508,11 +507,11 @@ func (l *LangRefValue) UnmarshalJSON(data []byte) error {
 		o, _ := val.Object()
 		o.Visit(func(key []byte, v *fastjson.Value) {
 			l.Ref = LangRef(key)
-			l.Value = unescape(v.GetStringBytes())
+			l.Value = v.GetStringBytes()
 		})
 	case fastjson.TypeString:
 		l.Ref = NilLangRef
-		l.Value = unescape(val.GetStringBytes())
+		l.Value = val.GetStringBytes()
 	}
 
 	return nil
@@ -732,12 +731,12 @@ func (n *NaturalLanguageValues) UnmarshalJSON(data []byte) error {
 		ob, _ := val.Object()
 		ob.Visit(func(key []byte, v *fastjson.Value) {
 			if dat := v.GetStringBytes(); len(dat) > 0 {
-				n.Append(LangRef(key), unescape(dat))
+				n.Append(LangRef(key), dat)
 			}
 		})
 	case fastjson.TypeString:
 		if dat := val.GetStringBytes(); len(dat) > 0 {
-			n.Append(NilLangRef, unescape(dat))
+			n.Append(NilLangRef, dat)
 		}
 	case fastjson.TypeArray:
 		for _, v := range val.GetArray() {
